@@ -562,23 +562,16 @@ class __Class(_pre.Pregex):
                 start_1, end_1 = ranges1[i]
                 for start_2, end_2 in ranges2:
                     if start_1 <= end_2 and end_1 >= start_2:
-                        if start_1 == start_2 and end_1 == end_2:
-                            ranges1.pop(i)
-                            i -= 1
-                            break
+                        # Keep whatever lies to the left and to the right of the subtracted range.
                         split_rng = list()
-                        if start_1 <= start_2 and end_1 <= end_2:
+                        if start_1 < start_2:
                             split_rng.append((start_1, chr(ord(start_2) - 1)))
-                        elif start_1 >= start_2 and end_1 >= end_2:
+                        if end_1 > end_2:
                             split_rng.append((chr(ord(end_2) + 1), end_1))
-                        else:
-                            split_rng.append((start_1, chr(ord(start_2) - 1)))
-                            split_rng.append((chr(ord(end_2) + 1), end_1))
-                        if len(split_rng) > 0:
-                            ranges1.pop(i)
-                            i -= 1
-                            ranges1 = ranges1 + split_rng
-                            break
+                        ranges1.pop(i)
+                        i -= 1
+                        ranges1 = ranges1 + split_rng
+                        break
                 i += 1
 
             ranges, chars = set(), set()
